@@ -1,8 +1,8 @@
 """C01 — Interest / Data encode-decode round trip (structure of the two-pass encoder and of make/parse). DESIGN §4 C01."""
 import ast
 
-from .common import ctx, returns, calls_in_ctx, reach_from_succ, site, srcs_text
-from .c08 import size_rules
+from .common import ctx, returns, calls_in_ctx, reach_from_succ, site, srcs_text, caller_object_reaches
+from .c08 import size_rules, stale_rule
 from ..flow import callee_attr
 from ..linexpr import lin, show, NotLinear
 from ..loader import AnalysisError, norm
@@ -23,6 +23,7 @@ def one_defs(cx):
 def run(R):
     P = R.P
     size_rules(R, 'C01')
+    stale_rule(R, 'C01')
     R.ob('C01.TBL.1', 'type and length numbers are written and announced in the shortest form (VAR-NUMBER), all four codec functions agree')
     tabs = varnum_tables(P, ('get_tl_num_size', 'write_tl_num', 'parse_tl_num'))
     bad = [x for x in compare_varnum(tabs, only=('get_tl_num_size', 'write_tl_num', 'parse_tl_num')) if not x[3]]
@@ -166,13 +167,18 @@ def run(R):
     R.need(len(fields) >= 6, f'InterestParam fields {fields}')
     mi, pi = ctx(R, F3 + '.make_interest'), ctx(R, F3 + '.parse_interest')
 
+    conditional = {}
+
     def attr_copies(cx, lhs_prefix, rhs_prefix):
         out = {}
+        rets_ = [r for r in returns(cx) if r.ast.value is not None]
         for n in cx.cfg.nodes:
             if n.kind == 'stmt' and isinstance(n.ast, ast.Assign) and isinstance(n.ast.targets[0], ast.Attribute):
                 l, r = ast.unparse(n.ast.targets[0]), ast.unparse(n.ast.value)
                 if l.startswith(lhs_prefix + '.') and '.' not in l[len(lhs_prefix) + 1:]:
                     out[l[len(lhs_prefix) + 1:]] = r
+                    if not all(cx.cfg.dominates(n, r_) for r_ in rets_):
+                        conditional[(cx.qual, l[len(lhs_prefix) + 1:])] = n
         return out
     mk = attr_copies(mi, 'interest.interest', 'interest_param')
     pk = attr_copies(pi, 'params', 'ret')
@@ -186,7 +192,12 @@ def run(R):
         else:
             okm = mk.get(f) == f'interest_param.{f}'
             okp = pk.get(f) == f'ret.{f}'
-        if okm and okp:
+        cond = None if f == 'forwarding_hint' else (conditional.get((mi.qual, f)) or conditional.get((pi.qual, f)))
+        if okm and okp and cond is not None:
+            who = mi if (mi.qual, f) in conditional else pi
+            R.fail('C01.SIB.1', inst, who.qual, cond.ast, f'`{f}` is copied only on some paths (`{norm(cond.ast)}` is guarded): some values of the field do not '
+                   'survive the round trip (e.g. 0 or an absent element replaced by the default)', site(who, cond.ast))
+        elif okm and okp:
             R.ok('C01.SIB.1', inst, site(mi, mi.f.node))
         else:
             who = 'make_interest' if not okm else 'parse_interest'
@@ -286,4 +297,44 @@ def run(R):
             R.fail('C01.PRV.1', inst, cx.qual, construct if not isinstance(construct, ast.FunctionDef) else 'def ' + cx.f.node.name, what, site(cx, construct))
     else:
         R.ok('C01.PRV.1', inst, site(ne, ne.f.node))
+    # ------------------------------------------------------------------ PRV.2 the encoder never edits the caller's name object
+    R.ob('C01.PRV.2', 'the name list the encoder edits (string components replaced, digest component appended) is a private copy, never the caller\'s object')
+    for q in (TM + '.InterestNameField.encoded_length', TM + '.NameField.encoded_length', TM + '.InterestNameField.encode_into', TM + '.NameField.encode_into'):
+        cx = ctx(R, q)
+        edits = []
+        # does the sibling encode_into edit the preprocessed name it reads back from the markers?
+        ex = ctx(R, q.rsplit('.', 1)[0] + '.encode_into')
+        pre_locals = {nm for n in ex.cfg.nodes for (nm, v) in ex.cfg.defs_of(n)
+                      if isinstance(v, ast.Subscript) and ast.unparse(v.value) == 'markers' and 'preprocessed_name' in ast.unparse(v.slice)}
+        MUT = ('append', 'extend', 'insert', 'pop', 'remove', 'clear', 'sort', 'reverse')
+        sibling_edits = any(callee_attr(c) in MUT and ((isinstance(c.func.value, ast.Name) and c.func.value.id in pre_locals) or
+                                                        (isinstance(c.func.value, ast.Subscript) and 'preprocessed_name' in ast.unparse(c.func.value)))
+                            for n in ex.cfg.nodes for c in n.calls()) or \
+            any(isinstance(t, ast.Subscript) and isinstance(t.value, ast.Name) and t.value.id in pre_locals
+                for n in ex.cfg.nodes if n.kind == 'stmt' and isinstance(n.ast, ast.Assign) for t in n.ast.targets)
+        for n in cx.cfg.nodes:
+            if n.kind == 'stmt' and isinstance(n.ast, (ast.Assign, ast.AugAssign)):
+                for t in (n.ast.targets if isinstance(n.ast, ast.Assign) else [n.ast.target]):
+                    if isinstance(t, ast.Subscript) and isinstance(t.value, ast.Name):
+                        edits.append((n, t.value.id, f'`{norm(n.ast)}` edits it in place'))
+                    # handed to encode_into through the markers, which appends the digest component to it
+                    if isinstance(t, ast.Subscript) and ast.unparse(t.value) == 'markers' and 'preprocessed_name' in ast.unparse(t.slice) \
+                            and isinstance(n.ast, ast.Assign) and isinstance(n.ast.value, ast.Name) and sibling_edits:
+                        edits.append((n, n.ast.value.id, 'it is kept as the preprocessed name, to which encode_into appends the digest component'))
+            for c in n.calls():
+                if callee_attr(c) in ('append', 'extend', 'insert', 'pop', 'remove', 'clear', 'sort', 'reverse') and isinstance(c.func.value, ast.Name):
+                    edits.append((n, c.func.value.id, f'`{ast.unparse(c)[:60]}` edits it in place'))
+        wire_like = {'wire', 'markers', 'sig_cover_part', 'sig_covered_part'}
+        edits = [(n, v, why) for (n, v, why) in edits if v not in wire_like]
+        inst = q + ' :: works on a private copy of the name'
+        bad = []
+        for (n, v, why) in edits:
+            for d in caller_object_reaches(cx, v, n):
+                bad.append((n, v, why, d))
+        if bad:
+            for (n, v, why, d) in bad:
+                R.fail('C01.PRV.2', inst, q, n.ast, f'`{v}` can still be the caller\'s own list here (bound at line {d.lineno} and not copied on every path) and {why}: '
+                       'building one packet changes the name object the application keeps using', site(cx, n.ast))
+        else:
+            R.ok('C01.PRV.2', inst, site(cx, cx.f.node), f'{len(edits)} in-place edits, all on fresh lists')
     R.assumptions += ['equality of returned values with inputs for all names / payloads, and the crypto signers themselves, are not decided']
